@@ -99,7 +99,7 @@ OPTSETS = [{}, {"quoted": True}, {"platform_aware": True}, {"quoted": True, "pla
 # the family
 # ---------------------------------------------------------------------------------------
 SCHEMES = ["http://", "https://", "", "//", "HTTP://", "ftp://"]
-USERINFO = [["u", None], ["u", "p"], ["U%41", "P:x"], ["", None], ["é", ""], [None, None]]
+USERINFO = [["u", None], ["u", "p"], ["U%41", "P:x"], ["", None], ["", "p"], ["é", ""], [None, None]]
 LABELS = ["www", "WWW", "www2", "www9", "m", "M", "mobile", "Mobile", "amp", "AMP"]
 AMPDASH = ["amp-", "AMP-"]
 INDEXES = ["index.html", "index.php", "index", "default.aspx", "default", "index.htm", "index%2Ehtml"]
